@@ -327,6 +327,21 @@ pub fn replay(case: &Value) -> Vec<Violation> {
     let zod = case["zod"].as_bool().unwrap_or(false);
     let Some(it) = items().into_iter().find(|i| i.name == name) else { return vec![] };
     let table = serde_table();
+    if let Some(kind) = case["partial_config"].as_str() {
+        let sb = crate::run::Sandbox::new();
+        let fcfg = crate::sbx::FileCfg { zod, ..Default::default() };
+        crate::sbx::write_sources(&sb.root, &project_for(std::slice::from_ref(&it)), &fcfg);
+        if kind == "tauri" {
+            let _ = std::fs::remove_file(sb.root.join("typegen.json"));
+            std::fs::write(sb.root.join("tauri.conf.json"), fcfg.to_tauri_conf_json()).unwrap();
+        }
+        let r = crate::sbx::run_generate(&sb.root, crate::sbx::Seam::Cli, &crate::sbx::RunOpts { discover_config: kind == "tauri", ..Default::default() });
+        if !r.success() {
+            return vec![];
+        }
+        let files = crate::run::read_out_dir(&crate::sbx::out_dir(&sb.root, &fcfg));
+        return judge(&it, zod, &files, &table).unwrap_or_default();
+    }
     let cfg = Cfg { default_field_case: case["default_field_case"].as_str().map(|s| s.to_string()), ..Cfg::mode(zod) };
     let run = run_lib_default(&project_for(std::slice::from_ref(&it)), &cfg);
     if !run.ok() {
@@ -406,9 +421,45 @@ pub fn run(tier: Tier) -> CheckResult {
             (evals, vs, mach, judged)
         })
         .collect();
+    // the same through the real binary with a configuration FILE that leaves the naming settings
+    // out (the standalone file given with -c, and the plugins.typegen section of a discovered
+    // tauri.conf.json): what a file does not mention keeps its default
+    let cli_results: Vec<(u64, Vec<Violation>, Vec<String>, u64)> = [(false, false), (false, true), (true, false), (true, true)]
+        .par_iter()
+        .map(|(zod, tauri_conf)| {
+            let mut vs = vec![];
+            let mut mach = vec![];
+            let mut judged = 0u64;
+            let its: Vec<ItemSpec> = groups.iter().filter(|(k, _)| k.0 <= 2).flat_map(|(_, v)| v.iter().cloned()).collect();
+            let sb = crate::run::Sandbox::new();
+            let cfg = crate::sbx::FileCfg { zod: *zod, ..Default::default() };
+            crate::sbx::write_sources(&sb.root, &project_for(&its), &cfg);
+            if *tauri_conf {
+                let _ = std::fs::remove_file(sb.root.join("typegen.json"));
+                std::fs::write(sb.root.join("tauri.conf.json"), cfg.to_tauri_conf_json()).unwrap();
+            }
+            let r = crate::sbx::run_generate(&sb.root, crate::sbx::Seam::Cli, &crate::sbx::RunOpts { discover_config: *tauri_conf, ..Default::default() });
+            if !r.success() {
+                mach.push(format!("CLI run with a partial configuration file failed: {}", r.status_string()));
+                return (1, vs, mach, judged);
+            }
+            let files = crate::run::read_out_dir(&crate::sbx::out_dir(&sb.root, &cfg));
+            for it in &its {
+                match judge(it, *zod, &files, &table) {
+                    Ok(v) => {
+                        judged += 1;
+                        vs.extend(v.into_iter().map(|v| v.field("config", if *tauri_conf { "tauri.conf.json section without naming keys" } else { "standalone file without naming keys" }).with_replay_field("partial_config", json!(if *tauri_conf { "tauri" } else { "standalone" }))));
+                    }
+                    Err(e) if e.starts_with("SYNTAX") => {}
+                    Err(e) => mach.push(format!("{} (cli, partial config): {}", it.name, e)),
+                }
+            }
+            (1, vs, mach, judged)
+        })
+        .collect();
     let mut evaluations = 0;
     let mut judged = 0;
-    for (e, v, m, j) in results {
+    for (e, v, m, j) in results.into_iter().chain(cli_results) {
         evaluations += e;
         judged += j;
         res.violations.extend(v);
@@ -431,7 +482,7 @@ pub fn run(tier: Tier) -> CheckResult {
     res.coverage.set("exhaustive", true);
     res.coverage.set("serde_oracle_items", table.len() as u64);
     res.coverage.set("samples", json!([item_source(&all[5]), item_source(&all[all.len() - 3])]));
-    res.coverage.set("rule", "items: for each of the 15 container settings (none + 8 rename_all conventions + rename_all(serialize, deserialize) in both orders + rename_all_fields alone and beside rename_all [enums] + rename_all split over two attributes with deny_unknown_fields / a container rename whose value is \"rename_all\") structs with 10 field identifiers (incl. words that start with a digit) and enums with 6 variant identifiers (unit variants; plus enums with a tuple and a struct variant, whose literal is still the wire name; enum groups also under a configured default_field_case), one designated member carrying each of 19 (fields) / 8 (variants) attribute sets (rename values, rename(serialize, deserialize) in both orders and serialize-only, skip, skip_serializing_if, default, alias=\"skip\", rename=\"rename_all\", combined and separate attributes in both orders, skip_serializing, skip_deserializing); oracle for names = REAL serde: the same source text is compiled with serde_derive in the ttv-fixtures crate, serialised and read back; oracle for presence = the property's rule (absent iff plain skip); compared with the keys / literals parsed from the generated declaration in both modes. distinct_nontrivial = distinct (convention, kind, identifier, attribute set, mode) coordinates covered.");
+    res.coverage.set("rule", "items: for each of the 15 container settings (none + 8 rename_all conventions + rename_all(serialize, deserialize) in both orders + rename_all_fields alone and beside rename_all [enums] + rename_all split over two attributes with deny_unknown_fields / a container rename whose value is \"rename_all\") structs with 10 field identifiers (incl. words that start with a digit) and enums with 6 variant identifiers (unit variants; plus enums with a tuple and a struct variant, whose literal is still the wire name; enum groups also under a configured default_field_case), one designated member carrying each of 19 (fields) / 8 (variants) attribute sets (rename values, rename(serialize, deserialize) in both orders and serialize-only, skip, skip_serializing_if, default, alias=\"skip\", rename=\"rename_all\", combined and separate attributes in both orders, skip_serializing, skip_deserializing); oracle for names = REAL serde: the same source text is compiled with serde_derive in the ttv-fixtures crate, serialised and read back; oracle for presence = the property's rule (absent iff plain skip); compared with the keys / literals parsed from the generated declaration in both modes (in process; and, for the first three container settings, through the real binary with a configuration file - standalone and tauri.conf.json section - that leaves the naming settings out). distinct_nontrivial = distinct (convention, kind, identifier, attribute set, mode) coordinates covered.");
     res.assumptions = vec!["skip on enum variants is not in the alphabet (the statement defines absence for fields only)".into()];
     res
 }
